@@ -98,6 +98,22 @@ def run(chk):
                 f['text'] = text[:200] + ' ...'
                 chk.classify(f, kf_match)
                 chk.fail(f)
+        # quoted tokens with every short body over the characters that matter to the lexers and the un-escaping actions
+        # (backslash, both quotes, back-quote, newline): literal at the end / followed by another literal / as a name
+        import itertools
+        alpha = ['a', '\\', "'", '"', '`', '\n', ' ']
+        bodies = [''.join(t) for n in (0, 1, 2, 3) for t in itertools.product(alpha, repeat=n)]
+        if quick:
+            bodies = [b for b in bodies if len(b) <= 2] + rng.sample([b for b in bodies if len(b) == 3], 120)
+        for b in bodies:
+            for q in ("'", '"', '`'):
+                for text in ('select %s%s%s' % (q, b, q), 'select * from t where a = %s%s%s and b = \'z\'' % (q, b, q),
+                             'select 1 as %s%s%s' % (q, b, q), 'select @%s%s%s' % (q, b, q)):
+                    chk.count((d, text))
+                    f = probe_case(d, text)
+                    if f:
+                        chk.classify(f, kf_match)
+                        chk.fail(f)
         # arbitrary unicode text
         for i in range(200 if quick else 5000):
             n = rng.randint(0, 30)
